@@ -398,6 +398,16 @@ impl Prop for C06 {
                 self.gen_for_square(rng, w, out);
             }
         }
+        // size bound of `NamespaceData::verify` (added after tools/coverage.sh showed the
+        // `rows.len() > u16::MAX` arm was never taken): one row more than a u16 can count
+        // (NamespaceDataTooLarge) and exactly u16::MAX rows (passes the bound, fails the row count),
+        // against the last square; rows are minimal (empty absence proof, no shares) to keep the line small
+        let minimal = RowSpec { r: 0, start: 0, end: 0, ign: 0, absent: 2, leaf: vec![], nodes: vec![], shares: vec![], parity: 0 };
+        let nsx = hx(user_ns(rng).as_bytes());
+        for (n, tag) in [(u16::MAX as usize + 1, "verify/too-many-rows"), (u16::MAX as usize, "verify/u16-max-rows")] {
+            let v = vec![minimal.clone(); n];
+            out.op(format!("verify ns={nsx} rows={}", rows_arg(&v)), tag, true);
+        }
     }
     fn run(&mut self, line: &str) -> String {
         let op = opname(line);
